@@ -479,12 +479,59 @@ def check_it_on_impl(c, res):
 def gen_tg_cases(ctx):
     rng = ctx.rng
     cases = []
-    kinds = ['none', 'list', 'array', 'zeros_array', 'array']
-    for k in range(20 if ctx.tier == 'thorough' else 8):
-        cases.append({'p': rng.choice([1, 2, 3]), 'n': rng.choice([3, 4, 6, 9]), 'seed': rng.randrange(10 ** 6),
-                      'u0': kinds[k % len(kinds)], 'sweep': rng.choice(['forward', 'backward', 'symmetric']),
-                      'tol': hexf(2.0 ** -rng.choice([20, 26, 30])), 'smooth_steps': rng.choice([1, 2, 3]), 'maxiter': 200})
+    kinds = ['none', 'list', 'array', 'zeros_array', 'far', 'warm']
+    for k in range(30 if ctx.tier == 'thorough' else 12):
+        kind = kinds[k % len(kinds)]
+        c = {'p': rng.choice([1, 2, 3]), 'n': rng.choice([3, 4, 6, 9]), 'seed': rng.randrange(10 ** 6),
+             'u0': kind, 'sweep': rng.choice(['forward', 'backward', 'symmetric']),
+             'tol': hexf(2.0 ** -rng.choice([20, 26, 30])), 'smooth_steps': rng.choice([1, 2, 3]), 'maxiter': 200}
+        if kind == 'warm':
+            # initial residual ~ 1e-6 |A|: keep the requested residual well above the evaluation floor u |A||u|
+            c['tol'] = hexf(2.0 ** -rng.choice([8, 10, 12]))
+        if k >= len(kinds) and rng.random() < 0.3:
+            c['maxiter'] = rng.choice([1, 2, 3])          # the iteration limit is hit ("too many iterations")
+            c['tol'] = hexf(2.0 ** -40)
+        cases.append(c)
     return cases
+
+
+def tg_observe(c, res):
+    """What the harness computes independently from the implementation's recorded vectors: the true initial
+    residual, the residual of every cycle at the point where twogrid measures it, the rounding uncertainty of
+    each, and the reported (numiter, exit)."""
+    import re
+    A = np.array([[fl(h) for h in r] for r in res['A']])
+    f = np.array([fl(h) for h in res['f']])
+    n = len(f)
+    u0 = np.zeros(n) if res['u0'] is None else np.array([fl(h) for h in res['u0']])
+    u = 2.0 ** -53
+
+    def rn(y):
+        r = float(np.linalg.norm(f - A @ y))
+        # evaluation uncertainty of a residual norm: (n+2) u | |f| + |A||y| |  (+ rounding of the norm itself)
+        return r, (n + 2) * u * float(np.linalg.norm(abs(f) + abs(A) @ abs(y))) + 1e-12 * r
+    res0, e0 = rn(u0)
+    rs = [rn(np.array([fl(h) for h in t])) for t in res['trace']]
+    m = re.search(r'(\d+) iterations', res['printed'])
+    numiter = int(m.group(1)) if m else None
+    ex = 'Diverged' if 'Diverged' in res['printed'] else ('TooMany' if 'too many' in res['printed'] else 'Converged')
+    return A, f, u0, res0, e0, rs, numiter, ex
+
+
+def tg_model(res0, e0, rs, tol, maxiter):
+    """twogrid's stopping rule (solvers.py:150-171) on a residual sequence.  Returns (k, exit, near_tie)."""
+    near = False
+    for k, (r, er) in enumerate(rs, start=1):
+        for thr in (tol * res0, 20 * res0):
+            if abs(r - thr) <= er + (thr / res0) * e0 + 1e-6 * thr:
+                near = True
+        if r < tol * res0:
+            return k, 'Converged', near
+        if r > 20 * res0:
+            return k, 'Diverged', near
+        if k > maxiter:
+            return k, 'TooMany', near
+    return len(rs) + 1, 'Continue', near
 
 
 def check_tg_on_impl(c, res):
@@ -492,28 +539,68 @@ def check_tg_on_impl(c, res):
         return [('twogrid-u0-%s:%s' % (c['u0'], res['status']),
                  'twogrid(u0=%s) raised %s: %s' % (c['u0'], res['status'], res.get('msg')))]
     out = []
-    A = np.array([[fl(h) for h in r] for r in res['A']])
-    f = np.array([fl(h) for h in res['f']])
+    A, f, u0, res0, e0, rs, numiter, ex = tg_observe(c, res)
     xs = np.array([fl(h) for h in res['xs']])
     u = np.array([fl(h) for h in res['u']])
-    u0 = np.zeros(len(f)) if res['u0'] is None else np.array([fl(h) for h in res['u0']])
-    if 'Diverged' in res['printed'] or 'too many' in res['printed']:
-        out.append(('twogrid-noconv', 'twogrid did not converge on an SPD problem: %s' % res['printed'][:80]))
+    tol = fl(c['tol'])
+    if res0 <= 1e3 * e0:
+        return out            # initial residual at rounding level: a relative reduction is not meaningful
+    if numiter is None or numiter != len(rs) or res['smoother_calls'] != numiter * c['smooth_steps']:
+        out.append(('twogrid-count', 'twogrid reports %s iterations but ran %d cycles (%d smoother calls, smooth_steps=%d)' % (
+            numiter, len(rs), res['smoother_calls'], c['smooth_steps'])))
+        return out
+    k, e, near = tg_model(res0, e0, rs, tol, c['maxiter'])
+    c['_near_tie'] = near
+    if not near and (k, e) != (numiter, ex):
+        rK = rs[-1][0]
+        out.append(('twogrid-stop:%s' % c['u0'],
+                    'twogrid(u0=%s) left its loop after %d cycle(s) as %s with residual %.3g = %.3g * |f - A u0| (|f - A u0| = %.3g, tol = %.3g); '
+                    'its own stopping rule on this residual sequence gives %s after %d cycle(s)' % (
+                        c['u0'], numiter, ex, rK, rK / res0, res0, tol, e, k)))
+    if ex == 'Converged' and rs[-1][0] - rs[-1][1] > tol * (res0 + e0) * (1 + 1e-6):
+        out.append(('twogrid-early:%s' % c['u0'], 'twogrid stopped as converged with residual reduction %.3g relative to the initial residual, requested %.3g' % (
+            rs[-1][0] / res0, tol)))
+    if c['maxiter'] >= 200 and ex != 'Converged' and not near:
+        out.append(('twogrid-noconv:%s' % c['u0'], 'twogrid did not converge on an SPD problem within %d iterations: %s' % (c['maxiter'], res['printed'][:80].strip())))
     ev = np.linalg.eigvalsh(A)
     kappa = ev[-1] / ev[0]
-    r0 = np.linalg.norm(f - A @ u0)
     r = np.linalg.norm(f - A @ u)
-    tol = fl(c['tol'])
-    # the loop stops on the residual before the last coarse correction; the correction does not increase the
-    # energy error, hence |r_after|_2 <= sqrt(kappa) |r_before|_2 < sqrt(kappa) tol res0 (+ rounding n u kappa |f|)
-    lim = math.sqrt(kappa) * tol * r0 * (1 + 1e-6) + 100 * len(f) * 2.0 ** -53 * kappa * (np.linalg.norm(f) + 1)
-    if not (r <= lim):
-        out.append(('twogrid-residual', 'returned vector has residual %.3g, requested %.3g * %.3g' % (r, tol, r0)))
-    e0 = u0 - xs
-    e = u - xs
-    if e @ A @ e > e0 @ A @ e0 * (1 + 1e-9) + 1e-20:
-        out.append(('twogrid-energy', 'energy error grew from %.3g to %.3g' % (e0 @ A @ e0, e @ A @ e)))
+    if ex == 'Converged':
+        # the loop stops on the residual before the last coarse correction; the correction does not increase the
+        # energy error, hence |r_after|_2 <= sqrt(kappa) |r_before|_2 < sqrt(kappa) tol res0 (+ rounding n u kappa |f|)
+        lim = math.sqrt(kappa) * tol * res0 * (1 + 1e-6) + 100 * len(f) * 2.0 ** -53 * kappa * (np.linalg.norm(abs(f) + abs(A) @ abs(u)) + 1)
+        if not (r <= lim):
+            out.append(('twogrid-residual', 'returned vector has residual %.3g, requested %.3g * %.3g' % (r, tol, res0)))
+    e0v = u0 - xs
+    ev_ = u - xs
+    if ev_ @ A @ ev_ > e0v @ A @ e0v * (1 + 1e-9) + 1e-25:
+        out.append(('twogrid-energy', 'energy error grew from %.3g to %.3g' % (e0v @ A @ e0v, ev_ @ A @ ev_)))
     return out
+
+
+TG_HEADER = '''From Coq Require Import QArith Qcanon List Arith Bool ZArith.
+From Verif.C11 Require Import Model.
+Import ListNotations.
+Open Scope Qc_scope.
+Definition q (a : Z) (b : positive) : Qc := Q2Qc (a # b).
+Definition exit_eqb (a b : tg_exit) : bool :=
+  match a, b with Converged, Converged => true | Diverged, Diverged => true | TooMany, TooMany => true | _, _ => false end.
+(* twogrid's loop (Model.twogrid_loop) driven by the residual sequence measured on the implementation's own iterates:
+   state = number of cycles done; table = [ |f - A u0| ; r_1 ; r_2 ; ... ] *)
+Inductive tcase := TC (table : list Qc) (tol : Qc) (maxiter : nat) (k : nat) (e : tg_exit).
+Definition agrees (c : tcase) : bool :=
+  let '(TC table tol maxiter k e) := c in
+  let '(_, k', e') := twogrid_loop S (fun j => nth j table 0) (fun j => j) 0%nat (@None nat) tol maxiter in
+  Nat.eqb k k' && exit_eqb e e'.
+Fixpoint bad (k : nat) (cs : list tcase) : list nat :=
+  match cs with [] => [] | c :: cs' => if agrees c then bad (S k) cs' else k :: bad (S k) cs' end.
+'''
+
+
+def coq_tg_case(c, res, perturb=False):
+    A, f, u0, res0, e0, rs, numiter, ex = tg_observe(c, res)
+    k = numiter + (1 if perturb else 0)
+    return '(TC %s %s %d%%nat %d%%nat %s)' % (cvec([Fr(res0)] + [Fr(r) for r, _ in rs]), cq(fh(c['tol'])), c['maxiter'], k, ex)
 
 
 # ---------------------------------------------------------------------------
@@ -929,7 +1016,7 @@ def run(ctx):
         ctx.count(('tg', c['p'], c['n'], c['seed'], c['u0'], c['sweep'], c['smooth_steps']))
         for tag, text in check_tg_on_impl(c, r):
             nfail += 1
-            ctx.report('impl:' + tag, text, {'case': c, 'impl': {k: v for k, v in r.items() if k not in ('A',)},
+            ctx.report('impl:' + tag, text, {'case': c, 'impl': {k: v for k, v in r.items() if k not in ('A', 'trace')},
                        'how': 'solvers.twogrid(mass+stiffness on refine(make_knots(p,0,1,n)), f, prolongation, GaussSeidelSmoother(sweep), u0=...)'})
     stats = {'mg_runs': 0, 'mg_max_dev_over_bound': 0.0, 'drivers': 0, 'drivers_inf': 0, 'spaces': 0, 'levels': {}}
     for c, r in zip(hs_cases, hs_results):
@@ -988,6 +1075,32 @@ def run(ctx):
         viol = check_it_on_impl(c, r)
         ctx.report('tie:iterative_solve', 'Coq model of iterative_solve and implementation return different (x, iterations)' + (': ' + viol[0][1] if viol else ''),
                    {'case': public(c), 'impl': r}, found_input=bool(viol))
+    ok_tg = []
+    for c, r in zip(tg_cases, out['tg']):
+        if r['status'] != 'Ok':
+            continue
+        o = tg_observe(c, r)
+        if o[6] is None or o[6] != len(o[5]) or o[3] <= 1e3 * o[4]:
+            continue
+        if tg_model(o[3], o[4], o[5], fl(c['tol']), c['maxiter'])[2]:
+            continue              # a residual within rounding of a threshold: either decision is legitimate
+        ok_tg.append((c, r))
+    texts = [coq_tg_case(c, r) for c, r in ok_tg]
+    canary = coq_tg_case(ok_tg[0][0], ok_tg[0][1], perturb=True) if ok_tg else None
+    bad, okf = eval_case_files(ctx, 'C11_tg', TG_HEADER, texts + ([canary] if canary else []), 150)
+    if canary and okf:
+        if len(texts) not in bad:
+            ctx.broken.append('self-test: a perturbed twogrid case was not flagged by the Coq comparison')
+        bad = [b for b in bad if b != len(texts)]
+    for b in bad[:3]:
+        c, r = ok_tg[b]
+        ndis += 1
+        ctx.broken.append('correspondence C11 twogrid loop model<->impl differs (case %d)' % b)
+        viol = check_tg_on_impl(c, r)
+        ctx.report('tie:twogrid:%s' % c['u0'], 'Coq model of the twogrid loop, run on the residuals of the implementation\'s own iterates, stops elsewhere than the implementation'
+                   + (': ' + viol[0][1] if viol else ''),
+                   {'case': c, 'impl': {k: v for k, v in r.items() if k not in ('A', 'trace')}}, found_input=bool(viol))
+    n_tg_coq = len(ok_tg)
     thorough = ctx.tier == 'thorough'
     texts, meta = coq_mg_cases(hs_cases, hs_results, 16, 160 if thorough else 40)
     bad, okf = eval_case_files(ctx, 'C11_mg', MG_HEADER, texts, 14)
@@ -998,7 +1111,7 @@ def run(ctx):
                    'Coq model of local_mg_step and implementation disagree beyond the rounding bound', meta[b], found_input=True)
     ctx.cov['disagreements_checked'] = ndis
     log('[C11] Coq case files done in %.0fs' % (time.time() - t0))
-    ctx.cov['coq_cases'] = {'gauss_seidel': len(ok_gs), 'iterative_solve': len(ok_it), 'local_mg_step': len(texts)}
+    ctx.cov['coq_cases'] = {'gauss_seidel': len(ok_gs), 'iterative_solve': len(ok_it), 'twogrid_loop': n_tg_coq, 'local_mg_step': len(texts)}
     ctx.cov['rule'] = ('Gauss-Seidel: SPD/diagonally dominant/nonsymmetric/zero-diagonal dyadic matrices n<=7 (12) in dense, raw CSR '
                        '(explicit zeros, unsorted columns), CSC, COO (duplicates) x index lists x sweeps x iterations; iterative_solve: '
                        'exactly computable contractions x x0 x active dofs x tol x maxiter; twogrid x u0 kinds; hierarchical spaces '
